@@ -35,7 +35,7 @@ SYS_A = 'system_bmimbf4_cg.gro'
 TRIPLE_A = {'BMIM': ('BMIM_CG.itp', 'BMIM_AA.gro', 'BMIM_AA.itp'),
             'BF4': ('BF4_CG.itp', 'BF4_AA.gro', 'BF4_AA.itp')}
 SPECIES_LISTS = (['BMIM', 'BF4'], ['BF4', 'BMIM'], ['BMIM'], ['BF4'])
-SCALES_A = (None, 0.3, 1.0, 0.0)     # None = flag absent; 0: every atom collapses onto its bead
+SCALES_A = (None, 0.3, 1.0, 0.0, 1.5)     # None = flag absent; 0: every atom collapses onto its bead; 1.5: expands
 STEPS = 2
 
 
@@ -395,7 +395,7 @@ class C20(Check):
         max_dev = 3 if thorough else 2
         chunk_cost = 200 if thorough else 40
         self.bounds = {
-            'differential': {'species_lists': [list(x) for x in SPECIES_LISTS], 'scales': ['absent', 0.3, 1.0, 0.0],
+            'differential': {'species_lists': [list(x) for x in SPECIES_LISTS], 'scales': ['absent', 0.3, 1.0, 0.0, 1.5],
                              'outputs': ['-o absolute', 'default', '-o relative (cwd is not the input folder)'] + (['default_relative_cwd'] if thorough else []),
                              'numpy_seeds': [0, 1] if thorough else [0], 'steps_factor': STEPS},
             'set_all_permutations_up_to': kmax, 'set_transpositions_beyond': 2, 'max_deviations': max_dev,
